@@ -58,7 +58,7 @@ pub struct PathSpec {
     pub source: bool,
 }
 
-pub const PATHS: [PathSpec; 16] = [
+pub const PATHS: [PathSpec; 19] = [
     PathSpec { rel: "src/a/F1.tsx", source: true },
     PathSpec { rel: "src/a/F2.ts", source: true },
     PathSpec { rel: "src/ab/F3.tsx", source: true },
@@ -75,9 +75,14 @@ pub const PATHS: [PathSpec; 16] = [
     PathSpec { rel: "src/a/__isograph_like/G.ts", source: false },
     PathSpec { rel: "src/a/F1.tsx.bak", source: false },
     PathSpec { rel: "src/c/F8.ts", source: true },
+    // a file and a folder that sort between `src/a` and `src/a/...` ('.' and '-' are below '/')
+    PathSpec { rel: "src/a.ts", source: true },
+    PathSpec { rel: "src/a-x/F9.ts", source: true },
+    // a source-named file whose content is never valid UTF-8 (an editor saving garbage)
+    PathSpec { rel: "src/c/Blob.ts", source: true },
 ];
 
-pub const DIRS: [&str; 6] = ["src/a", "src/ab", "src/a/b", "src/c", "src/a/__isograph_like", "src/d"];
+pub const DIRS: [&str; 7] = ["src/a", "src/ab", "src/a/b", "src/c", "src/a/__isograph_like", "src/d", "src/a-x"];
 
 pub const BINARY_BLOB: [u8; 12] = [0xff, 0xfe, 0x00, 0x80, 0xc3, 0x28, 0xa0, 0xa1, 0xe2, 0x28, 0xa1, 0x00];
 
@@ -157,7 +162,7 @@ impl World {
     }
 
     pub fn content_for(path_idx: usize, snippet_idx: usize) -> Vec<u8> {
-        if PATHS[path_idx].rel.ends_with(".bin") {
+        if PATHS[path_idx].rel.ends_with(".bin") || PATHS[path_idx].rel.ends_with("Blob.ts") {
             BINARY_BLOB.to_vec()
         } else {
             SNIPPETS[snippet_idx % SNIPPETS.len()].1.as_bytes().to_vec()
